@@ -4,10 +4,12 @@ package hrw_test
 
 import (
 	"crypto/sha256"
+	"encoding/binary"
 	"encoding/hex"
 	"fmt"
 	"hash"
 	"math"
+	"math/bits"
 	"strconv"
 	"strings"
 	"sync"
@@ -117,9 +119,13 @@ func c22Exec(t *verifh.T, c verifh.Case) {
 			if err != nil || err2 != nil {
 				return
 			}
+			// the oracle score of a node is computed on a FRESH RendezvousHash holding only that node, so that no state
+			// the queried object may keep between Score calls (pooled / reused hashers) can leak into the oracle
 			row := []string{op[2]}
 			for _, nd := range rh.Nodes {
-				row = append(row, c22NodeTok(nd)+"="+c22ScoreTok(nd.Score(key)))
+				fresh := c22New(cfg)
+				fresh.AddNode(nd.Label, nd.Weight)
+				row = append(row, c22NodeTok(nd)+"="+c22ScoreTok(fresh.Nodes[0].Score(key)))
 			}
 			t.Rec("tbl", row, nil)
 			var out []*hrw.RendezvousHashNode
@@ -190,6 +196,75 @@ func c22Concurrent(t *verifh.T, rh *hrw.RendezvousHash, cfg []string, op []strin
 	if first != "" {
 		t.PropFail("wrong-order-concurrent", strings.Fields(first)...)
 	}
+}
+
+const (
+	c22mc1 = 0x87c37b91114253d5
+	c22mc2 = 0x4cf5ad432745937f
+)
+
+func c22Inv64(a uint64) uint64 { // inverse of an odd number modulo 2^64
+	x := a
+	for i := 0; i < 6; i++ {
+		x *= 2 - a*x
+	}
+	return x
+}
+
+func c22InvFmix(k uint64) uint64 {
+	k ^= k >> 33
+	k *= c22Inv64(0xc4ceb9fe1a85ec53)
+	k ^= k >> 33
+	k *= c22Inv64(0xff51afd7ed558ccd)
+	k ^= k >> 33
+	return k
+}
+
+// c22ZeroKey constructs a 32-hex-digit key such that murmur3_64(key bytes ++ label) has its 53 low bits zero
+// (label of at most 8 bytes), by inverting murmur3's finaliser, tail and body step.  Such keys make Score take
+// the re-hash-on-zero branch of UInt64ToFloat64; random keys practically never do (2^-53).
+func c22ZeroKey(label string, salt, top uint64) string {
+	n := uint64(16 + len(label))
+	u2 := salt*0x9e3779b97f4a7c15 + 12345
+	u1 := top<<53 - u2
+	h1pp, h2pp := c22InvFmix(u1), c22InvFmix(u2)
+	h2p := h2pp - h1pp
+	h1p := h1pp - h2p
+	h1t, h2t := h1p^n, h2p^n
+	var k1t uint64
+	for i := len(label) - 1; i >= 0; i-- {
+		k1t = k1t<<8 | uint64(label[i])
+	}
+	k1t = bits.RotateLeft64(k1t*c22mc1, 31) * c22mc2
+	h1b, h2b := h1t^k1t, h2t
+	x := (h1b - 0x52dce729) * c22Inv64(5)
+	k1 := bits.RotateLeft64(bits.RotateLeft64(x, -27)*c22Inv64(c22mc2), -31) * c22Inv64(c22mc1)
+	y := (h2b-0x38495ab5)*c22Inv64(5) - h1b
+	k2 := bits.RotateLeft64(bits.RotateLeft64(y, -31)*c22Inv64(c22mc1), -33) * c22Inv64(c22mc2)
+	b := make([]byte, 16)
+	binary.LittleEndian.PutUint64(b[0:], k1)
+	binary.LittleEndian.PutUint64(b[8:], k2)
+	key := hex.EncodeToString(b)
+	h := hrw.Murmur3Hash()
+	h.Write(append(b, label...))
+	if binary.BigEndian.Uint64(h.Sum(nil))&(1<<53-1) != 0 {
+		panic("c22ZeroKey: construction failed for " + label)
+	}
+	return key
+}
+
+func c22Perms(n int) [][]int {
+	if n == 0 {
+		return [][]int{{}}
+	}
+	var out [][]int
+	for _, p := range c22Perms(n - 1) {
+		for i := 0; i <= len(p); i++ {
+			q := append(append(append([]int{}, p[:i]...), n-1), p[i:]...)
+			out = append(out, q)
+		}
+	}
+	return out
 }
 
 func c22Op(xs ...string) []string { return append([]string{"op"}, xs...) }
@@ -315,6 +390,44 @@ func TestVerif_C22(t *testing.T) {
 		b := []byte{byte(i >> 3), byte(i<<5) & 0xe0, 0, 0, 0, 0, 0, 0}
 		c22Exec(tr, verifh.Case{Ops: [][]string{{"one", "unitfloat", verifh.Hex(b)}}})
 		tr.Count("unitfloat_cases", 1)
+	}
+
+	// (0b) keys that make Score itself take the re-hash-on-zero branch for one of the nodes: memberships of 3 and
+	// 4 nodes in EVERY insertion order, then every single removal and re-addition
+	labels := []string{"node-a", "node-b", "node-c", "node-d", "n1", "host7:80"}
+	for li := 0; li < verifh.Scale(3, len(labels)); li++ {
+		target := labels[(li*2+int(verifh.Seed()))%len(labels)]
+		for size := 3; size <= 4; size++ {
+			var ms []c22Node
+			ms = append(ms, c22Node{target, 1 + li})
+			for _, l := range labels {
+				if l != target && len(ms) < size {
+					ms = append(ms, c22Node{l, 1 + len(ms)%3})
+				}
+			}
+			keys := []string{c22ZeroKey(target, uint64(li), 1), c22ZeroKey(target, uint64(li)+7, uint64(3+li)), c22ZeroKey(ms[1].label, 1, 2)}
+			for _, perm := range c22Perms(size) {
+				c := verifh.Case{Cfg: []string{"hash=murmur"}}
+				for _, i := range perm {
+					c.Ops = append(c.Ops, c22Add(ms[i]))
+				}
+				full := strconv.Itoa(size)
+				for _, k := range keys {
+					c.Ops = append(c.Ops, c22Op("get", k, full), c22Op("get", k, "1"))
+				}
+				x := ms[perm[0]]
+				c.Ops = append(c.Ops, c22Op("remove", verifh.Str(x.label)))
+				for _, k := range keys {
+					c.Ops = append(c.Ops, c22Op("get", k, full))
+				}
+				c.Ops = append(c.Ops, c22Add(x))
+				for _, k := range keys {
+					c.Ops = append(c.Ops, c22Op("get", k, full), c22Op("get", k, full))
+				}
+				c22Exec(tr, c)
+				tr.Count("rehash_key_cases", 1)
+			}
+		}
 	}
 
 	// (a) the exhaustive shard space: all 65536 four-hex-digit keys
